@@ -62,7 +62,11 @@ Corpus == {
   \* a bounded group INSIDE a sequence, followed by one more element: (a, (b | e), c), (a?, (b, e?)?, c), (a, (b | e)?, c)
   <<"seq", <<1, 1>>, El("a", "string", 1, 1), BGrp("choice", <<1, 1>>, 1), El("c", "string", 1, 1), 1, "model">>,
   <<"seq", <<1, 1>>, El("a", "string", 0, 1), BGrp("seq", <<0, 1>>, 0), El("c", "EMPTY", 1, 1), 2, "model">>,
-  <<"seq", <<1, 1>>, El("a", "string", 1, 1), BGrp("choice", <<0, 1>>, 1), El("c", "string", 1, 1), 3, "model">> }
+  <<"seq", <<1, 1>>, El("a", "string", 1, 1), BGrp("choice", <<0, 1>>, 1), El("c", "string", 1, 1), 3, "model">>,
+  \* the SAME child named twice with another one in between, no repetition indicator: (a, b, a), (a, b?, a), (a, (b | e), a)
+  <<"seq", <<1, 1>>, El("a", "string", 1, 1), El("b", "string", 1, 1), El("a", "string", 1, 1), 1, "model">>,
+  <<"seq", <<1, 1>>, El("a", "string", 1, 1), El("b", "Kid", 0, 1), El("a", "string", 1, 1), 2, "model">>,
+  <<"seq", <<1, 1>>, El("a", "string", 1, 1), BGrp("choice", <<1, 1>>, 1), El("a", "string", 1, 1), 3, "model">> }
 InitCorpus == \E c \in Corpus, i \in 0..MaxDocIdx : parts = Append(c, i)
 
 Root == Grp(parts[1], parts[2][1], parts[2][2], <<parts[3], parts[4]>> \o (IF parts[5].k = "none" THEN <<>> ELSE <<parts[5]>>))
